@@ -28,6 +28,10 @@ type ClassModel struct {
 
 	// methodList - stores all available methods definition of class
 	methodList map[string]*Function
+
+	// module - the module whose program declares this class (nil for built-in classes);
+	// the methods of its objects run in that module wherever the object travels
+	module *r.Module
 }
 
 // NewClassModel - create new empty r.ClassRef
@@ -56,6 +60,17 @@ func (cm *ClassModel) Construct(params []r.Element) (r.Element, error) {
 	// initialize a new object - an instance of class with no props set
 	instance := NewObject(cm, r.ElementMap{})
 	return cm.constructor(instance, params)
+}
+
+// SetModule - remember the module that declares the class
+func (cm *ClassModel) SetModule(module *r.Module) *ClassModel {
+	cm.module = module
+	return cm
+}
+
+// GetModule - the module that declares the class (nil for built-in classes)
+func (cm *ClassModel) GetModule() *r.Module {
+	return cm.module
 }
 
 // //// GETTERS //////
